@@ -136,9 +136,61 @@ func c12Check(m *MClaims, c psatoken.IClaims) string {
 	return ""
 }
 
+// c12LateProfile registers a new extension profile (for the duration of the
+// case) on the base profile of m, realises m as claims of that profile and
+// sends them through JSON and back.
+func c12LateProfile(t *rapid.T, m *MClaims) string {
+	shape := "ext-p2"
+	if m.Prof == P1 {
+		shape = "ext-p1"
+	} else if rapid.Bool().Draw(t, "late.own-tag") {
+		shape = "own-tag"
+	}
+	name := fmt.Sprintf("http://example.com/verif/late/%d", rapid.IntRange(0, 1<<30).Draw(t, "late.n"))
+	restore := psatoken.VerifCheckpointProfiles()
+	defer restore()
+	// something was decoded before the registration
+	if _, err := psatoken.DecodeClaimsFromJSON([]byte(`{"psa-client-id": 1}`)); err != nil {
+		return "a profile-less document does not decode: " + err.Error()
+	}
+	pr := dynProfile{name, shape}
+	if err := psatoken.RegisterProfile(pr); err != nil {
+		return fmt.Sprintf("registering the new profile %q fails: %v", name, err)
+	}
+	c := pr.GetClaims()
+	mm := m.Clone()
+	mm.Profile = sp(name)
+	if err := mm.applySetters(c); err != nil {
+		return "valid values refused by the setters of the derived profile: " + err.Error()
+	}
+	if err := c.Validate(); err != nil {
+		return "" // the derived profile's own rule; not what is looked at here
+	}
+	js, err := psatoken.EncodeClaimsToJSON(c)
+	if err != nil {
+		return "claims of the new profile do not encode to JSON: " + err.Error()
+	}
+	d, err := psatoken.DecodeClaimsFromJSON(js)
+	if err != nil {
+		return fmt.Sprintf("the library's own JSON for the profile %q does not decode: %v\n  json: %s", name, err, js)
+	}
+	if fmt.Sprintf("%T", c) != fmt.Sprintf("%T", d) {
+		return fmt.Sprintf("JSON dispatch changed the type %T -> %T", c, d)
+	}
+	if g0, g1 := ObserveGetters(c), ObserveGetters(d); g0 != g1 {
+		return fmt.Sprintf("getter results differ after JSON round trip:\n  before: %s\n  after:  %s\n  json: %s", g0, g1, js)
+	}
+	b0, e0 := psatoken.EncodeClaimsToCBOR(c)
+	b1, e1 := psatoken.EncodeClaimsToCBOR(d)
+	if (e0 == nil) != (e1 == nil) || !bytes.Equal(b0, b1) {
+		return fmt.Sprintf("claims -> JSON -> claims changed the CBOR encoding:\n  %x (%v)\n  %x (%v)", b0, e0, b1, e1)
+	}
+	return ""
+}
+
 func TestC12_JSON(t *testing.T) {
 	st := NewStats("C12", "TestC12_JSON", "rapid: valid claims-sets of both profiles (setters / literals / decoded from CBOR; P1 with and without explicit profile; non-ASCII, control, quote, <>& text; negative client ids): JSON round trip through the dispatching decoder gives identical getters; CBOR->claims->JSON->claims->CBOR reproduces the bytes; the emitted document parsed generically equals the model's expected object (documented names, std base64, absent optionals omitted); Evidence.MarshalJSON agrees. Seven extension styles and seven profiles whose names are prefixes / extensions of the built-in names are registered throughout. Non-trivial = special text, or P1 without explicit profile, or no-measurements, or >=2 components; distinct = class vector + text hash")
-	st.Require = []string{"P1", "P2", "p1-implicit-profile", "special-text", "nomeas", "neg-clientid"}
+	st.Require = []string{"P1", "P2", "p1-implicit-profile", "special-text", "nomeas", "neg-clientid", "late-registered-profile"}
 	defer st.Flush(t)
 	// the register also holds other profiles, among them ones whose NAMES
 	// extend (or are extended by) the built-in names and that use the same
@@ -178,6 +230,15 @@ func TestC12_JSON(t *testing.T) {
 			t.Fatalf("C12 violated (%s route): %s\n [%s]", route, msg, m.ClassVector())
 		}
 		cls := []string{p.String()}
+		// a profile registered at RUN TIME, after documents were already
+		// decoded (a plug-in, a configuration step): the library's own JSON of
+		// its claims-sets comes back through the dispatching decoder as well
+		if rapid.IntRange(0, 11).Draw(t, "late-registration") == 0 {
+			cls = append(cls, "late-registered-profile")
+			if msg := c12LateProfile(t, m); msg != "" {
+				t.Fatalf("C12 violated (profile registered after earlier decodes): %s\n [%s]", msg, m.ClassVector())
+			}
+		}
 		nt := false
 		if p == P1 && m.Profile == nil {
 			cls = append(cls, "p1-implicit-profile")
